@@ -59,9 +59,9 @@ Print Assumptions C06_marks_outside_kept.
 (* FULL STATEMENT AIMED AT (not proved): for every script, the run of ex_main equals, command by command, the run of
    the reference line editor of ExSpec.v (texts, current line, printed output, identity-marks, registers).
    Proved below: the per-command equalities, given the resolved range [b,e), for delete (text, current line, register),
-   append/insert/change, print, put, read, yank (register), mark, and =.  s1 is the state after the address was
+   append/insert/change, print, put, read, yank (register), mark, = and the filter command.  s1 is the state after the address was
    resolved (it differs from s only in the remembered search keyword and, after `;`, the current line).
-   Missing: the filter command's equation, `@`, and the lifting through ex_exec's parser to whole scripts (needs a
+   Missing: `@`, and the lifting through ex_exec's parser to whole scripts (needs a
    parsed-command datatype and ex_exec = fold over it). *)
 Theorem C06_refines_spec_partial : forall rvalid rfind,
   (forall loc arg s b e s1, ex_region rvalid rfind loc s = (false, b, e, s1) -> slen s <> 0 -> ex_zero loc b e = false ->
@@ -95,11 +95,16 @@ Theorem C06_refines_spec_partial : forall rvalid rfind,
      texts s' = texts s /\ xrow s' = xrow s1 /\ nth k (marks (lb s')) (-1, None) = (e - 1, ghost_at (lns (lb s)) (e - 1))) /\
   (forall loc s b e s1, ex_region rvalid rfind loc s = (false, b, e, s1) -> ex_zero loc b e = false ->
      let s' := fst (ec_lnum rvalid rfind loc s) in
-     texts s' = texts s /\ xrow s' = xrow s1 /\ out s' = ONum e :: out s1).
+     texts s' = texts s /\ xrow s' = xrow s1 /\ out s' = ONum e :: out s1) /\
+  (forall filter loc arg s b e s1 rep, xwa s = true -> plain_arg arg = true -> loc <> [] ->
+     ex_region rvalid rfind loc s = (false, b, e, s1) -> ex_zero loc b e = false ->
+     filter arg (ref_range (texts s) b e) = Some rep ->
+     let s' := fst (ec_exec rvalid rfind filter loc arg s) in
+     texts s' = splice (Z.to_nat b) (Z.to_nat e) (split_lines rep) (texts s) /\ xrow s' = xrow s1).
 Proof. exact (fun rvalid rfind =>
   conj (delete_refines rvalid rfind) (conj (insert_refines rvalid rfind) (conj (print_refines rvalid rfind)
   (conj (put_refines rvalid rfind) (conj (read_refines rvalid rfind) (conj (yank_refines rvalid rfind)
-  (conj (delete_regs rvalid rfind) (conj (mark_refines rvalid rfind) (lnum_refines rvalid rfind))))))))). Qed.
+  (conj (delete_regs rvalid rfind) (conj (mark_refines rvalid rfind) (conj (lnum_refines rvalid rfind) (filter_refines rvalid rfind)))))))))). Qed.
 Print Assumptions C06_refines_spec_partial.
 
 (* the hypotheses are satisfiable: on a three-line buffer "2,3" resolves to [1,3) *)
